@@ -66,7 +66,7 @@ func (r *Report) Sample(s any) {
 }
 
 func (r *Report) Violate(v Violation) {
-	if len(r.Violations) < 50 {
+	if len(r.Violations) < 400 {
 		r.Violations = append(r.Violations, v)
 	}
 }
